@@ -58,6 +58,8 @@ type localMacroFunc struct {
 	name     string
 	params   []string
 	template ast.Expr
+
+	expanding bool // Set while the template is being expanded
 }
 
 type converter struct {
@@ -263,6 +265,14 @@ func (conv *converter) findLocalMacro(call *ast.CallExpr) *localMacroFunc {
 }
 
 func (conv *converter) expandMacro(macro *localMacroFunc, call *ast.CallExpr) ir.FilterExpr {
+	// The calls are resolved by the func name: a local func named after
+	// a package-level func it calls would be expanded inside itself, endlessly.
+	if macro.expanding {
+		panic(conv.errorf(call, "%s local func can't be used in its own definition", macro.name))
+	}
+	macro.expanding = true
+	defer func() { macro.expanding = false }()
+
 	// Check that call args are OK.
 	// Since "function calls" are implemented as a macro expansion here,
 	// we don't allow arguments that have a non-trivial evaluation.
